@@ -111,11 +111,11 @@ def exact_roots(spec, prob, ta, tb):
         if prob.name == "lin":
             cands = [tau]
         else:
-            for k in range(-3, 4):
+            for k in range(-14, 15):
                 cands += [tau + 2 * np.pi * k, np.pi - tau + 2 * np.pi * k]
     elif kind == "dstate":
         if prob.name == "osc":
-            for k in range(-3, 4):
+            for k in range(-14, 15):
                 cands += [tau + 2 * np.pi * k, -tau + 2 * np.pi * k]
     m = 1e-9
     out = []
@@ -177,6 +177,10 @@ METHODS = ["EulerSolver", "RK4Solver", "RK45CKSolver", "ABAs5o6HSolver", "Implic
 LIN_SPANS = {(-1.0, 2.0): [-0.75, -0.5, 0.25, 0.5, 0.625, 1.0, 1.75], (2.0, -1.0): [-0.75, -0.5, 0.25, 0.5, 0.625, 1.0, 1.75],
              (-3.0, -1.0): [-2.75, -2.5, -2.25, -2.0, -1.625, -1.25], (-1.0, -3.0): [-2.75, -2.5, -2.25, -2.0, -1.625, -1.25]}
 OSC_SPANS = {(0.0, 3.0): [0.4, 1.1, 2.3], (3.0, 0.0): [0.4, 1.1, 2.3], (-3.0, -0.5): [-2.6, -1.3, -0.8], (1.0, -2.0): [-1.3, -0.8, 0.4]}
+# the same alphabet far from the origin of the time axis (|t| >> 1, where one unit in the last place of t exceeds an absolute tolerance of a few eps)
+LIN_SPANS.update({(-34.0, -31.0): [-33.75, -33.5, -32.75, -32.5, -32.375, -32.0, -31.25], (-31.0, -34.0): [-33.75, -33.5, -32.75, -32.5, -32.375, -32.0, -31.25],
+                  (31.0, 34.0): [31.25, 31.5, 32.25, 32.5, 32.625, 33.0, 33.75]})
+OSC_SPANS.update({(-35.0, -32.0): [-34.6, -33.9, -32.7], (-32.0, -35.0): [-34.6, -33.9, -32.7], (35.0, 32.0): [34.6, 33.9, 32.7]})
 
 
 def event_sets(pname, taus, thorough):
